@@ -553,6 +553,7 @@ func checkRelaxedTime(r *Report, p *Prog) {
 	sort.Strings(layouts)
 	layouts = uniqStrings(layouts)
 	zoned, zoneless := false, false
+	zonedAny, zonelessAny := false, false
 	for _, l := range layouts {
 		body := strings.TrimPrefix(l, "2006-01-02T15:04:05")
 		if body == l {
@@ -565,14 +566,22 @@ func checkRelaxedTime(r *Report, p *Prog) {
 			okL, whyL = false, fmt.Sprintf("layout %q is not an xsd:dateTime layout", l)
 			continue
 		}
+		// time.Parse reads a fraction of any length where the layout has none or has 9s; a fraction written with 0s
+		// must be present with exactly that many digits
+		anyFrac := frac == "" || strings.Trim(frac[1:], "9") == ""
 		if z {
 			zoned = true
+			zonedAny = zonedAny || anyFrac
 		} else {
 			zoneless = true
+			zonelessAny = zonelessAny || anyFrac
 		}
 	}
 	if okL && !(zoned && zoneless) {
 		okL, whyL = false, fmt.Sprintf("layouts %q do not cover both the RFC 3339 form and the zone-less form", layouts)
+	}
+	if okL && !(zonedAny && zonelessAny) {
+		okL, whyL = false, fmt.Sprintf("layouts %q read a fraction of any length (or none) only for one of the two forms: the other has fixed-width '.000' layouts only, so instants written without a fraction, or with another number of digits, are refused", layouts)
 	}
 	r.Check(okL, rule, p.FnName(um)+": layouts", p.Pos(um.Pos()), strings.Join(layouts, " | "), whyL)
 	// non-matching text is an error: every return is nil only after a store
